@@ -28,6 +28,8 @@ def devResponse : Req → Resp
 def handlerOf (kind : String) : Handler := fun _ req =>
   if kind == "dev" then .resp (devResponse req)
   else if kind == "typed" then .typedErr 2
+  -- a typed error that carries its own (foreign) transaction id, unit id and function: only its code may be used
+  else if kind == "typedp" then .typedErr 6
   else if kind == "generic" then .genericErr
   else if kind == "panic" then .panics
   else -- mix: by unit id
